@@ -488,6 +488,60 @@ func slotsCase(rt *rapid.T, prop string, lap bool) {
 				nontrivial = true
 			}
 		}
+		// A request which took its slot and then waits for the write lock
+		// (a publisher sits inside Write) when the connection is lost: it goes
+		// out on the next connection with the identifier it has. The request
+		// which follows must not get that identifier while the broker owes
+		// the answer on this very connection.
+		if c0 := h.Current(); c0 != nil && c0.Accepted() && rapid.IntRange(0, 2).Draw(rt, "waitsAcrossReconnectFirst") == 0 {
+			h.armWrite(rapid.IntRange(0, 3).Draw(rt, "parkOff"), sim.WPark)
+			w := h.pub(0, false)
+			fa := "across/#"
+			ca := h.Go("sub", &Req{Kind: "sub", Filters: []string{fa}, Level: 2, Quit: "nil"}, func() (<-chan error, error) { return nil, h.Client.Subscribe(nil, fa) })
+			h.PollQuiet(2*time.Millisecond, func() bool { return false })
+			h.Act("break conn=%d while a Subscribe waits for the write lock; reconnect", c0.N)
+			c0.Break(false)
+			for i := 0; i < 8; i++ {
+				if cur := h.Current(); cur != nil && cur != c0 && cur.Accepted() && h.ReaderWaiting() {
+					break
+				}
+				h.App.Step()
+				h.PollQuiet(2*time.Millisecond, func() bool { return false })
+			}
+			if cur := h.Current(); cur != nil && cur != c0 && cur.Accepted() {
+				h.MustPoll("the Subscribe which waited for the write lock written on the new connection, or returned", func() bool {
+					_, ok := h.unorderedID(fa)
+					return ok || h.IsDone(ca)
+				})
+				idA, okA := h.unorderedID(fa)
+				onCur := false
+				h.WithLock(func() {
+					for _, p := range cur.State.Packets {
+						if p.Type == refmqtt.SUBSCRIBE && p.Filters[0] == fa {
+							onCur = true
+						}
+					}
+				})
+				b := issue(-7, false)
+				if okA && onCur && !h.IsDone(b.call) && b.id == idA {
+					h.Failf("a Subscribe which had waited for the write lock across a connection loss went out on conn %d with identifier %#04x; the next request got the same identifier while that answer is still owed", cur.N, idA)
+				}
+				h.Act("both answers")
+				h.App.Step()
+				if okA && onCur {
+					h.releaseByID(idA)
+				}
+				h.settleInbound()
+				if !h.IsDone(b.call) {
+					h.releaseByID(b.id)
+				}
+				h.MustPoll("the request which followed returning", func() bool { return h.IsDone(b.call) })
+				h.MustPoll("the Subscribe which waited returning", func() bool { return h.IsDone(ca) })
+				h.label("request-waits-for-the-write-lock-across-a-connection-loss")
+				nontrivial = true
+			}
+			h.SettleCall(w)
+		}
 		for i := 0; i < n; i++ {
 			s := issue(i, false)
 			slots = append(slots, s)
